@@ -132,6 +132,11 @@ def run(chk: common.Check):
             r = icode_twins(structures.read(n), rng)
             if r:
                 cases.append((f"{n} twin {fmt_key(r[1])}", r[0], r))
+    # negative residue numbers are legal in PDB files and in the list syntax
+    t_neg = structures.read("3SGB-subset.pdb")
+    first_num = min(int(l[22:26]) for l in structures.atom_lines(t_neg) if l[21] == "E")
+    cases.append(("3SGB-subset chain E renumbered to negative numbers",
+                  structures.map_atoms(t_neg, lambda l: structures.set_resnum(l, int(l[22:26]) - first_num - 120, l[26]) if l[21] == "E" else l), None))
     fexprs, fmeta = [], []
     for name, text, twin in cases:
         mol0, _ = structures.run(text)
@@ -157,8 +162,9 @@ def run(chk: common.Check):
             opt = ",".join(fmt_key(k) for k in L)
             try:
                 mol1, _ = structures.run(text, ["--titrate_only", opt])
-            except Exception as ex:   # noqa: BLE001
-                found.append(("option-crash", f"{name} --titrate_only ({what}): {type(ex).__name__}: {ex}", {"case": name, "list": opt}))
+            except (Exception, SystemExit) as ex:   # noqa: BLE001  (argparse rejects a list by SystemExit)
+                found.append(("option-crash" if not isinstance(ex, SystemExit) else "well-formed-list-rejected",
+                              f"{name} --titrate_only ({what}): {type(ex).__name__}: {ex} for the list {opt[:80]}", {"case": name, "list": opt}))
                 continue
             f1 = flags(mol1)
             chk.count(1, key=("run", name, what, len(L)))
